@@ -30,6 +30,7 @@ pub fn gen_oligo_case(rng: &mut Rng, tier: &str, prop: &str) -> Case {
             dup_id_pct: 0,
             mega_1_in: 15000,
             twin_mega_1_in: 0,
+            many_1_in: 1500,
     };
     let mut records = g.gen(rng);
     // keep wide rows affordable: k >= 6 means thousands of columns per row
